@@ -8,7 +8,8 @@ CALL_RE = re.compile(r"when calling (.*?)(?: \(which (?:returns|raises).*\))?$",
 
 
 def _run(args, env_extra, timeout):
-    env = dict(os.environ, PYTHONHASHSEED="0", PYTHONPATH=str(ROOT), **env_extra)
+    tgt = os.environ.get("VERIF_TARGET")
+    env = dict(os.environ, PYTHONHASHSEED="0", PYTHONPATH=(tgt + ":" if tgt else "") + str(ROOT), **env_extra)
     t = time.time()
     try:
         p = subprocess.run([PY, "-u", "-m", "engine.xh_worker", *args], cwd=str(ROOT), env=env, capture_output=True, text=True, timeout=timeout)
